@@ -654,6 +654,32 @@ def admissible(case):
     return True
 
 
+def natural_scale(case, scale):
+    """energy scale of the rounding errors: largest |U| met on the path, and the potential's own scale for the
+    Mexican-hat potentials (depth of the Lennard-Jones well, k * r0^p for the even power)"""
+    if case["kind"] == "lj":
+        return max(scale, case["prefactor"])
+    if case["kind"] == "ep":
+        return max(scale, case["prefactor"] * case["eq"] ** case["power"])
+    return scale
+
+
+def degenerate_start(path, scale):
+    """turning points of the path (also just behind the start) whose energy differs from the start's by less than
+    the rounding level: the start is then 'at a turning point' as far as binary64 can tell"""
+    lenscale = max(abs(x) for x in path.case["sep"]) if path.L is None else path.L
+    if not math.isfinite(scale):
+        return []
+    f0 = path.f(0.0)
+    out = []
+    for b in path.raw_breaks(lenscale):
+        if abs(b) <= 1e-2 * lenscale:
+            fb = path.f(b)
+            if fb == f0 or (math.isfinite(fb) and math.isfinite(f0) and abs(fb - f0) <= ID_ATOL * scale):
+                out.append(b)
+    return out
+
+
 def turning_landmarks(path, upto_laps=1):
     """cumulative uphill energy at the turning points of the path (closest approach, minimum sphere, box faces,
     infinity), with the energy scale; for the periodic potential: within the first lap, plus the lap climb"""
@@ -663,15 +689,15 @@ def turning_landmarks(path, upto_laps=1):
     else:
         xs = [0.0] + path.breaks(path.L) + [path.L]
         vals = [path.f(x) for x in xs]
-    lenscale = max(abs(x) for x in path.case["sep"]) if path.L is None else path.L
-    start_turning = any(abs(b) <= 1e-7 * lenscale for b in path.raw_breaks(lenscale))
+    fin = [abs(v) for v in vals if math.isfinite(v)]
+    scale = natural_scale(path.case, max(fin) if fin else INF)
+    start_turning = bool(degenerate_start(path, scale))
     cum, out = 0.0, ([0.0] if start_turning else [])
     for a, c in zip(vals, vals[1:]):
         if c > a:
             cum += c - a
         out.append(cum)
-    fin = [abs(v) for v in vals if math.isfinite(v)]
-    return out, (max(fin) if fin else INF)
+    return out, scale
 
 
 def at_turning_point(case, path, dE):
@@ -680,8 +706,6 @@ def at_turning_point(case, path, dE):
         marks, scale = turning_landmarks(path)
     except (ValueError, ZeroDivisionError, OverflowError):
         return False
-    if case["kind"] == "lj":
-        scale = max(scale, case["prefactor"])
     if not math.isfinite(scale):
         return False
     tol = ID_ATOL * scale
@@ -723,7 +747,18 @@ def oracle_soft(ctx, case, out):
         x = t * speed
         ctx.extra["most_negative_displacement_over_length"] = min(
             ctx.extra.get("most_negative_displacement_over_length", 0.0), x / lenscale)
-        if x < -1e-7 * lenscale:
+        negtol = 1e-7 * lenscale
+        if x < -negtol:
+            # a start that binary64 cannot tell from a turning point: the returned distance is resolved only up to
+            # the distance of that turning point
+            try:
+                deg = degenerate_start(path, natural_scale(case, path.uphill(0.0)[1]))
+            except (ValueError, ZeroDivisionError, OverflowError):
+                deg = []
+            if deg:
+                negtol += 3 * max(abs(b) for b in deg)
+                ctx.count(f"oracle:{k}:negative-within-degenerate-start")
+        if x < -negtol:
             report(ctx, f"{sig0}:negative", jcase(case), f"displacement {x!r} is negative beyond rounding")
             return
         x = max(x, 0.0)
@@ -736,8 +771,7 @@ def oracle_soft(ctx, case, out):
     if path.perp == 0.0:
         ctx.count(f"oracle:{k}:head-on-value")
     V, scale = path.uphill(x)
-    if k == "lj":
-        scale = max(scale, case["prefactor"])
+    scale = natural_scale(case, scale)
     well = dE >= WELL * scale and math.isfinite(scale)
     tol = ID_RTOL * dE + ID_ATOL * scale
     ctx.count(f"oracle:{k}:" + ("inf" if x == INF else "finite") + (":well" if well else ":ill"))
@@ -797,6 +831,8 @@ def oracle_hard(ctx, case, out):
     if math.isnan(t):
         report(ctx, f"{k}:nan", jcase(case), "nan")
         return
+    # the closest approach b/a is itself only known to rounding: 1e-9 of the time scale |s|/|v|
+    tslack = Fr(1, 10 ** 9) * isqrt_fr(s2 / a)
     if k == "hs":
         R2 = 4 * Fr(case["radius"]) ** 2
         disc, t1, t2 = roots(R2)
@@ -816,7 +852,7 @@ def oracle_hard(ctx, case, out):
                 report(ctx, "hs:contact-without-root", jcase(case), f"returned {t!r} but the spheres never touch")
             return
         # on the contact sphere, and not after the closest approach (=> the least root)
-        if abs(g(t, R2)) > Fr(1, 10 ** 9) * (s2 + R2) or Fr(t) > (b / a) * (1 + Fr(1, 10 ** 9)) + Fr(1, 10 ** 300):
+        if abs(g(t, R2)) > Fr(1, 10 ** 9) * (s2 + R2) or Fr(t) > (b / a) * (1 + Fr(1, 10 ** 9)) + tslack:
             report(ctx, "hs:not-first-contact", jcase(case), f"returned {t!r}, first contact at {float(t1)!r}")
     else:
         A2, B2 = Fr(case["min"]) ** 2, Fr(case["max"]) ** 2
@@ -832,8 +868,8 @@ def oracle_hard(ctx, case, out):
         if t < 0 and float(t) < -1e-9 * float(isqrt_fr(s2 / a)):
             report(ctx, "hd:negative", jcase(case), f"negative time {t!r}")
             return
-        ok_min = abs(g(t, A2)) <= Fr(1, 10 ** 9) * (s2 + A2) and Fr(t) <= (b / a) * (1 + Fr(1, 10 ** 9)) + Fr(1, 10 ** 300)
-        ok_max = abs(g(t, B2)) <= Fr(1, 10 ** 9) * (s2 + B2) and Fr(t) >= (b / a) * (1 - Fr(1, 10 ** 9)) - Fr(1, 10 ** 300)
+        ok_min = abs(g(t, A2)) <= Fr(1, 10 ** 9) * (s2 + A2) and Fr(t) <= (b / a) * (1 + Fr(1, 10 ** 9)) + tslack
+        ok_max = abs(g(t, B2)) <= Fr(1, 10 ** 9) * (s2 + B2) and Fr(t) >= (b / a) * (1 - Fr(1, 10 ** 9)) - tslack
         want_min = hit
         if amb:
             good = ok_min or ok_max
@@ -981,7 +1017,7 @@ def run(ctx):
                 "outside the minimum sphere x can/cannot reach it, grazing passes, zero/tiny component along the motion, "
                 "box faces; budget class relative to the total climb of the path: mid/small/denormal/large/at-climb±ulp/"
                 "several laps); a case is non-trivial and distinct by (potential, regime, outcome class, budget class)")
-    N = ctx.n(18000, 900000)
+    N = ctx.n(90000, 1500000)
     known = load_known()
 
     # corpus first (known-finding witnesses are part of every run)
